@@ -355,11 +355,108 @@ func publicAPISuite() hlib.Suite {
 	}}
 }
 
+// sameInstanceSuite: two (three) runs started one after another on ONE f1 value: every run's verdict follows its
+// own command line, not the tolerances of the run before it.
+func sameInstanceSuite() hlib.Suite {
+	return hlib.Suite{Name: "exit-status/f1.ExecuteWithArgs/consecutive-runs-on-one-instance", Run: func(r *hlib.Rec) {
+		base := []string{"run", "constant", "s", "--distribution", "none", "--max-duration", "5s", "--concurrency", "1", "--max-iterations", "4"}
+		type runSpec struct {
+			extra []string
+			rate  string
+		}
+		tolerant := []runSpec{
+			{[]string{"--max-failures", "10"}, "1/100ms"},
+			{[]string{"--max-failures-rate", "100"}, "1/100ms"},
+			{[]string{"--ignore-dropped", "--max-failures", "10"}, "2/100ms"},
+			{[]string{"--max-failures", "0", "--max-failures-rate", "60"}, "1/100ms"},
+		}
+		strict := []runSpec{{nil, "1/100ms"}, {nil, "2/100ms"}, {[]string{"--max-failures", "0"}, "1/100ms"}}
+		for ti, first := range tolerant {
+			for si, second := range strict {
+				for _, third := range []bool{false, true} {
+					if !r.Mine() {
+						continue
+					}
+					r.Eval()
+					seq := []runSpec{first, second}
+					if third {
+						seq = append(seq, first)
+					}
+					var lines []string
+					for _, x := range seq {
+						lines = append(lines, strings.Join(append(append(append([]string{}, base...), "--rate", x.rate), x.extra...), " "))
+					}
+					input := "one f1.New().Add(s) value, ExecuteWithArgs called with: " + strings.Join(lines, "  THEN  ") + "  (iteration 2 of every run fails; 2/100ms with one slow worker drops)"
+					r.SampleCase(input)
+					var errs []error
+					var counts [][3]uint64
+					out := vrt.RunDefault(func() {
+						var s, f uint64
+						slow := false
+						fw := f1.New().WithLogger(hlib.DiscardLogger())
+						fw.Add("s", func(t *f1testing.T) f1testing.RunFn {
+							return func(t *f1testing.T) {
+								if slow {
+									vtime.Sleep(150 * time.Millisecond)
+								}
+								if t.Iteration == "2" {
+									f++
+									t.Fail()
+									return
+								}
+								s++
+							}
+						})
+						for _, x := range seq {
+							s, f, slow = 0, 0, x.rate == "2/100ms"
+							args := append(append(append([]string{}, base...), "--rate", x.rate), x.extra...)
+							errs = append(errs, fw.ExecuteWithArgs(args))
+							d := uint64(0)
+							if slow {
+								d = 1
+							}
+							counts = append(counts, [3]uint64{s, f, d})
+						}
+					}, 120*time.Second, 0)
+					if out.Status != vrt.StOK {
+						r.Fail("C08/cli-broken", "f1.ExecuteWithArgs/same-instance", out.Status.String()+": "+out.Crash+out.Detail, input)
+						continue
+					}
+					for i, x := range seq {
+						var mf uint64
+						var mfr int
+						ign := false
+						for k := 0; k < len(x.extra); k++ {
+							switch x.extra[k] {
+							case "--max-failures":
+								fmt.Sscan(x.extra[k+1], &mf)
+							case "--max-failures-rate":
+								fmt.Sscan(x.extra[k+1], &mfr)
+							case "--ignore-dropped":
+								ign = true
+							}
+						}
+						want := refFailed(counts[i][0], counts[i][1], counts[i][2], "none", ign, mf, mfr)
+						if got := errs[i] != nil; got != want {
+							kind := "nil-but-should-fail"
+							if got {
+								kind = "error-but-should-pass"
+							}
+							r.Fail("C08/cli-exit-status", kind+"/f1.ExecuteWithArgs/run-"+fmt.Sprint(i+1)+"-on-one-instance", fmt.Sprintf("run %d of %d on the same f1 value returned %v; it had %d successful, %d failed, dropped=%v and its own flags %v: the documented rule says failed=%v", i+1, len(seq), errs[i], counts[i][0], counts[i][1], counts[i][2] > 0, x.extra, want), input)
+						}
+					}
+					r.Distinct(fmt.Sprintf("tolerant %d strict %d third=%v", ti, si, third))
+				}
+			}
+		}
+	}}
+}
+
 func suites(tier string) []hlib.Suite {
 	if tier == "quick" {
-		return []hlib.Suite{verdictSuite(20), spotSuite(100), cliSuite(false), cliFileSuite(false), publicAPISuite()}
+		return []hlib.Suite{verdictSuite(20), spotSuite(100), cliSuite(false), cliFileSuite(false), publicAPISuite(), sameInstanceSuite()}
 	}
-	return []hlib.Suite{verdictSuite(64), spotSuite(1000), cliSuite(true), cliFileSuite(true), publicAPISuite()}
+	return []hlib.Suite{verdictSuite(64), spotSuite(1000), cliSuite(true), cliFileSuite(true), publicAPISuite(), sameInstanceSuite()}
 }
 
 const cliFileYAML = `scenario: s
